@@ -252,6 +252,7 @@ class Flattener:
         fn.body = self._block(fn.body, [self.fi.qualname], 0)
         fn.body = structure_guards(fn.body, in_loop=False, function_level=self.function_guards)
         fn.body = propagate_aliases(fn.body)
+        fn.body = collapse_temps(fn.body, fn)
         fn.body = canonical_accumulations(fn.body)
         fn = _CanonExpr().visit(fn)
         ast.fix_missing_locations(fn)
@@ -732,6 +733,43 @@ def _loop_to_comp(lp: ast.For, name: str, as_list: bool):
         comp = ast.ListComp(elt=s.value, generators=[ast.comprehension(target=lp.target, iter=lp.iter, ifs=conds, is_async=0)])
         return ast.Call(func=ast.Name(id="sum", ctx=ast.Load()), args=[comp], keywords=[])
     return None
+
+
+def collapse_temps(stmts: list[ast.stmt], scope: ast.AST) -> list[ast.stmt]:
+    """`_iK_ret = <value>` immediately followed by `x = _iK_ret` (the temp's only use) is `x = <value>`."""
+    uses: dict[str, int] = {}
+    stores: dict[str, int] = {}
+    for n in ast.walk(scope):
+        if isinstance(n, ast.Name) and n.id.startswith("_i"):
+            if isinstance(n.ctx, ast.Load):
+                uses[n.id] = uses.get(n.id, 0) + 1
+            else:
+                stores[n.id] = stores.get(n.id, 0) + 1
+
+    def go(block):
+        out = []
+        i = 0
+        while i < len(block):
+            st = block[i]
+            for fld in ("body", "orelse", "finalbody"):
+                b = getattr(st, fld, None)
+                if isinstance(b, list) and b and isinstance(b[0], ast.stmt):
+                    setattr(st, fld, go(b))
+            if isinstance(st, ast.Try):
+                for h in st.handlers:
+                    h.body = go(h.body)
+            nxt = block[i + 1] if i + 1 < len(block) else None
+            if (isinstance(st, ast.Assign) and len(st.targets) == 1 and isinstance(st.targets[0], ast.Name) and st.targets[0].id.startswith("_i")
+                    and stores.get(st.targets[0].id) == 1 and uses.get(st.targets[0].id) == 1
+                    and isinstance(nxt, (ast.Assign, ast.AnnAssign)) and isinstance(nxt.value, ast.Name) and nxt.value.id == st.targets[0].id):
+                nxt.value = st.value
+                i += 1
+                continue
+            out.append(st)
+            i += 1
+        return out
+
+    return go(stmts)
 
 
 class _CanonExpr(ast.NodeTransformer):
